@@ -466,13 +466,23 @@ func setupWorld() (failed string) {
 	try("(defun c09-fn (&rest args) args)")
 	try("(defvar c09-var 7)")
 	try("(setq c09-var 7)")
-	if _, err := sl.Eval(scope, "(make-instance 'c09-class)"); err != nil {
-		try("(defclass c09-class () ((a :initarg :a :initform 1)))")
+	// a chain step may have REDEFINED a helper (another slot set), not only removed it:
+	// each helper is probed through the very expression the canary uses
+	works := func(src, want string) bool {
+		res, err := sl.Eval(scope, src)
+		return err == nil && sl.Show(res) == want
 	}
-	if _, err := sl.Eval(scope, "(make-instance 'c09-flavor)"); err != nil {
+	if !works("(slot-value (make-instance 'c09-class) 'a)", "1") {
+		if _, err := sl.Eval(scope, "(defclass c09-class () ((a :initarg :a :initform 1)))"); err != nil || !works("(slot-value (make-instance 'c09-class) 'a)", "1") {
+			_, _ = sl.Eval(scope, "(setf (find-class 'c09-class) nil)")
+			try("(defclass c09-class () ((a :initarg :a :initform 1)))")
+		}
+	}
+	if !works("(send (make-instance 'c09-flavor) :a)", "1") {
+		_, _ = sl.Eval(scope, "(undefflavor 'c09-flavor)")
 		try("(defflavor c09-flavor ((a 1)) () :gettable-instance-variables :settable-instance-variables)")
 	}
-	if _, err := sl.Eval(scope, "(make-c09-struct :a 1)"); err != nil {
+	if !works("(c09-struct-a (make-c09-struct :a 1))", "1") {
 		try("(defstruct c09-struct a b)")
 	}
 	helperFn = slip.FindFunc("c09-fn")
